@@ -708,6 +708,7 @@ fn run_case(line: &str) -> String {
                 }
             }
         }
+        "FS" => obs_fs_state(&hex_to_string(rest)),
         "D" => {
             let f: Vec<&str> = rest.split(' ').collect();
             let input = hex_to_string(f[0]);
@@ -797,6 +798,68 @@ fn run_case(line: &str) -> String {
             format!("secs {}", de_time(&mut t).secs())
         }
         _ => format!("BAD-CASE {}", esc(line)),
+    }
+}
+
+/// `FS text`: the state of the host's file system is no input of parse/compile. `@T@` in the text
+/// stands for a fresh temporary directory; the expression is parsed, compiled and rendered, then every
+/// file destination it names under that directory (and a few fixed names) is created, and the same
+/// is done again: both answers must be equal. The directory is removed afterwards.
+fn obs_fs_state(text: &str) -> String {
+    use std::sync::atomic::{AtomicUsize, Ordering};
+    static N: AtomicUsize = AtomicUsize::new(0);
+    let dir = std::env::temp_dir().join(format!("fpharness-fs-{}-{}", std::process::id(), N.fetch_add(1, Ordering::SeqCst)));
+    if std::fs::create_dir_all(&dir).is_err() {
+        return "FS SKIPPED".into();
+    }
+    let d = dir.to_string_lossy().to_string();
+    let input = text.replace("@T@", &d);
+    let strip = |s: String| -> String {
+        // drop the clock reading (and the number wherever it is embedded)
+        match s.find("clock ") {
+            Some(i) => {
+                let num: String = s[i + 6..].chars().take_while(|c| c.is_ascii_digit()).collect();
+                if num.is_empty() { s } else { s.replace(&num, "*") }
+            }
+            None => s,
+        }
+    };
+    let run = |input: &str| -> (String, Vec<String>) {
+        let (s, r) = obs_parse(input);
+        match r {
+            None => (s, vec![]),
+            Some((o, e)) => {
+                let mut files = vec![];
+                if let Ok(Ok(c)) = catch_unwind(AssertUnwindSafe(|| compile(&e, &o))) {
+                    if let Some(m) = c.io_map() {
+                        for t in m.values() {
+                            if let Target::File(f, _) = t {
+                                files.push(f.clone());
+                            }
+                        }
+                    }
+                }
+                (format!("{} || {}", s, obs_compile(&e, &o, &[d.clone()], false)), files)
+            }
+        }
+    };
+    let (first, files) = run(&input);
+    for f in files.iter().map(|x| x.as_str()).chain(["out", "d/f", "x"].iter().map(|x| *x)) {
+        let path = if f.starts_with(&d) { std::path::PathBuf::from(f) } else { dir.join(f) };
+        if path.starts_with(&dir) {
+            if let Some(parent) = path.parent() {
+                let _ = std::fs::create_dir_all(parent);
+            }
+            let _ = std::fs::write(&path, b"");
+        }
+    }
+    let (second, _) = run(&input);
+    let _ = std::fs::remove_dir_all(&dir);
+    let (a, b) = (strip(first), strip(second));
+    if a == b {
+        "FS SAME".into()
+    } else {
+        format!("FS DIFF before: {} after: {}", a.replace(&d, "@T@").chars().take(600).collect::<String>(), b.replace(&d, "@T@").chars().take(600).collect::<String>())
     }
 }
 
